@@ -13,7 +13,7 @@ LEVEL = "exploration"
 WORKERS = {"quick": 8, "thorough": 16}
 BUDGET = {"quick": 60, "thorough": 420}
 MIN_NONTRIVIAL = {"quick": 3000, "thorough": 60000}
-REQUIRED_HOOKS = ["evaluate:I", "evaluate:C", "index-sweep", "key-sweep", "regex", "law"]
+REQUIRED_HOOKS = ["program-reuse", "evaluate:I", "evaluate:C", "index-sweep", "key-sweep", "regex", "law"]
 RULE = (
     "Well-typed programs over lists and maps of int/uint/bool/string (nested to depth 2) and strings from the type-directed generator restricted to "
     "indexing, in, size, concatenation, map construction/lookup/has, contains/startsWith/endsWith, map/filter/all/exists/exists_one, with injected failing "
@@ -283,6 +283,51 @@ def law_checks(acc, ctx, n):
                 )
 
 
+def check_reuse(acc, node, envs, origin):
+    """One program object per runner evaluated against several activations (same names and types, other values):
+    every evaluation must give what the reference evaluator gives for *that* activation."""
+    c = core.celpy()
+    try:
+        src = lang.to_text(node)
+    except ValueError:
+        return
+    exps = [expected_of(node, e) for e in envs]
+    if any(e[0] == "U" for e in exps):
+        return
+    for r in "IC":
+        try:
+            env = c.Environment(runner_class=core.runner_class(r))
+            prog = env.program(env.compile(src))
+        except Exception:
+            return  # construction problems are the business of check_program
+        for step, (e, exp) in enumerate(zip(envs, exps)):
+            try:
+                out = ["V", core.canon(prog.evaluate(MV.cel_env(e)))]
+            except c.CELEvalError:
+                out = ["E"]
+            except Exception as ex:
+                out = ["X", "evaluate", type(ex).__name__, core._left_from(ex), core._msg(ex)]
+            acc.hook("evaluate:" + r)
+            acc.hook("program-reuse")
+            acc.evaluations += 1
+            ok = agrees(out, exp)
+            acc.cell("reuse:" + origin, r, "step%d" % min(step, 3), exp[0], "ok" if ok else "differ")
+            if step:
+                acc.nt([src, "reuse", step, MV.enc_env(e)])
+            if ok:
+                continue
+            fresh = core.api_eval(r, src, MV.cel_env(e))
+            if not agrees(fresh, exp):
+                break  # wrong in a fresh program too: check_program reports and localises it
+            macros = sorted({x.a[0] for x in lang.walk(node) if x.k == "macro"})
+            acc.violation(
+                f"{r} program-reuse outcome-depends-on-an-earlier-evaluation root={diag.head(node)} macros={'+'.join(macros) or '-'} obs={diag.oclass(out).split('@')[0]} exp={'E' if exp[0] == 'E' else 'V:' + exp[1][0]}",
+                f"{'interpreted' if r == 'I' else 'compiled'}: evaluation #{step + 1} of one program {src[:120]!r} with {str(e)[:120]} gave {core.jkey(out)[:80]}, expected {str(exp)[:80]} (a fresh program agrees with the expectation)",
+                {"kind": "reuse", "src": src, "sequence": [MV.enc_env(x) for x in envs[: step + 1]], "runner": r, "bindings": MV.enc_env(e)},
+            )
+            break
+
+
 def run(ctx):
     acc = ctx.acc
     rnd = ctx.rnd
@@ -309,6 +354,9 @@ def run(ctx):
             t = ("map", rnd.choice(tgen.KEY_TYPES), rnd.choice(tgen.ELEM_TYPES))
         node = g.gen(t)
         check_program(acc, node, g.model_env(), "generated")
+        if g.bindings and j % 3 == 0:
+            e1 = g.model_env()
+            check_reuse(acc, node, [e1, g.redraw_env(), g.redraw_env(), e1], "generated")
         if j % 997 == 0:
             try:
                 acc.sample({"src": lang.to_text(node), "bindings": MV.enc_env(g.model_env())})
@@ -318,6 +366,18 @@ def run(ctx):
 
 def replay(case):
     core.celpy()
+    if case.get("kind") == "reuse":
+        c = core.celpy()
+        env = c.Environment(runner_class=core.runner_class(case["runner"]))
+        prog = env.program(env.compile(case["src"]))
+        outs = []
+        for e in case["sequence"]:
+            try:
+                outs.append(["V", core.canon(prog.evaluate(MV.cel_env(MV.dec_env(e))))])
+            except c.CELEvalError:
+                outs.append(["E"])
+        fresh = core.api_eval(case["runner"], case["src"], MV.cel_env(MV.dec_env(case["sequence"][-1])))
+        return outs[-1] == fresh, f"{case['src']!r} [{case['runner']}]: last evaluation of the reused program {outs[-1]}, fresh program {fresh}"
     out = core.api_eval(case["runner"], case["src"], MV.cel_env(MV.dec_env(case.get("bindings", {}))))
     exp = case["expected"]
     ok = out[0] == "E" if exp == "E" else (out[0] == "V" and MV.same_value_ignoring_class(out[1], MV.canon_of(MV.dec(exp))))
